@@ -36,8 +36,13 @@ ALL_KEYS = [v + m + r for v, ms in VARS.items() for m in ms for r in REV]
 COMP_T = [f"{n}{d}" for n in range(1, 6) for d in "ns"] + ["XXXz", "___z"]
 COMP_R = [f"{n}{d}" for n in range(1, 6) for d in "ew"] + ["XXXz", "___z"]
 COMP_S = [f"{n:02d}" for n in range(1, 7)] + ["XX", "__"]
+# boundary values: number 0 and the largest numbers the format allows
+EDGE_T = ["0n", "0s", "999n", "999s"]
+EDGE_R = ["0e", "0w", "999e", "999w"]
+EDGE_S = ["00", "99"]
 
-ELEM = st.tuples(st.sampled_from(COMP_T + COMP_T[:10]), st.sampled_from(COMP_R + COMP_R[:10]), st.sampled_from(COMP_S + COMP_S[:6])).map(lambda t: "".join(t))
+ELEM = st.tuples(st.sampled_from(COMP_T + COMP_T[:10] + EDGE_T), st.sampled_from(COMP_R + COMP_R[:10] + EDGE_R),
+                 st.sampled_from(COMP_S + COMP_S[:6] + EDGE_S)).map(lambda t: "".join(t))
 
 
 def style_key(keys, style):
@@ -64,13 +69,16 @@ CASE = st.fixed_dictionaries({
 })
 
 
+_TRS = __import__("re").compile(r"(?:(\d{1,3})([ns])|(XXXz|___z))(?:(\d{1,3})([ew])|(XXXz|___z))(\d\d|XX|__)")
+
+
 def parse_trs(s):
-    t, rest = (s[:4], s[4:]) if s[:4] in ("XXXz", "___z") else (s[:2], s[2:])
-    r, sec = (rest[:4], rest[4:]) if rest[:4] in ("XXXz", "___z") else (rest[:2], rest[2:])
-    tn = int(t[:-1]) if t[0].isdigit() else None
-    rn = int(r[:-1]) if r[0].isdigit() else None
+    m = _TRS.fullmatch(s)
+    tn = int(m.group(1)) if m.group(1) is not None else None
+    rn = int(m.group(4)) if m.group(4) is not None else None
+    sec = m.group(7)
     sn = int(sec) if sec.isdigit() else None
-    return {"twp_num": tn, "ns": t[-1] if tn is not None else None, "rge_num": rn, "ew": r[-1] if rn is not None else None, "sec_num": sn}
+    return {"twp_num": tn, "ns": m.group(2), "rge_num": rn, "ew": m.group(5), "sec_num": sn}
 
 
 def model_sort(recs, keys):
@@ -202,6 +210,8 @@ def classes(c):
                 out.add(f"method={m}")
     if any(e.count("z") or "XX" in e or "__" in e for e in c["elems"]):
         out.add("has_missing")
+    if any(e.startswith(("0n", "0s", "999")) or "999" in e or e.endswith(("00", "99")) or "n0" in e or "s0" in e for e in c["elems"]):
+        out.add("boundary_number")
     if c["dup"] and c["elems"]:
         out.add("same_instance_twice")
     if any(u and "z" not in e and "X" not in e and "_" not in e for u, e in zip(c.get("upper") or [], c["elems"])):
@@ -383,7 +393,7 @@ SUBS = [
     Sub("random", oracle, strategy=lambda tier: CASE, nontrivial=lambda c: bool(_last.get("nt")), classes=classes, render=render,
         n={"quick": 1500, "thorough": 15000}, shards={"quick": 8, "thorough": 16},
         essential=("kind=tract", "kind=trs", "kind=plss", "var=i", "var=t", "var=r", "var=s", "reversed", "method=.ns", "method=.sn", "method=.ew",
-                   "method=.we", "has_missing", "same_instance_twice", "nkeys=3")),
+                   "method=.we", "has_missing", "same_instance_twice", "nkeys=3", "boundary_number", "created_from_upper_case")),
     Sub("all_keys", oracle, enumerate=enum_keys, nontrivial=lambda c: bool(_last.get("nt")), classes=classes, render=render, exhaustive=True,
         shards={"quick": 4, "thorough": 16}),
     Sub("invalid_keys", oracle_bad, strategy=lambda tier: BAD_CASE, classes=lambda c: [f"key={c['key']}"], render=lambda c: c,
